@@ -49,6 +49,14 @@ def run(rep, ctx):
     rep.run_rule("C15.R1", "non-registration functions have an empty transitive write set on registry state", r1_purity, ctx)
     rep.run_rule("C15.R2", "registry-owned containers handed out by getters reach no mutation sink outside the registration methods", r2_sinks, ctx)
     rep.run_rule("C15.R3", "every registration method that writes a field a memo's fill path reads also clears that memo", r3_coherence, ctx)
+    from . import c07
+    from ..report import borrow
+    rep.rule("C15.R5", "the intern table is keyed by everything its entries depend on, in order (shared with C07.R5 / C07.R6)")
+    try:
+        borrow(rep, c07.r5_interning, ctx, "C07.R5", "C15.R5", keep=lambda o: ":key:" in o.key or ":ret:" in o.key or ":store-key:" in o.key)
+        borrow(rep, c07.r6_eq_hash, ctx, "C07.R6", "C15.R5", keep=lambda o: o.key == "ObtainQuantity:key-ordered")
+    except AnalysisError as e:
+        rep.error("C15.R5", str(e))
     rep.run_rule("C15.R4", "the only state a query may write is a known memo table (whose coherence R3 establishes); no unlisted cache on the database or on interned quantities", r4_no_unlisted_memo, ctx)
     rep.not_decided.append("equality of query *answers* between warm and fresh databases beyond purity and memo coherence")
 
@@ -149,6 +157,30 @@ def r3_coherence(rep, ctx):
                 rep.check(calls_add, "C15.R3", key, "registers through AddUnit (whose obligation covers it) and only reorders the list",
                           "writes %s without going through AddUnit and without clearing %s" % (fields, memo), fn=fn)
                 continue
+            if clears:
+                # ... on every path: from each write of those fields no normal exit is reachable without the clear
+                from ..cfg import CFG
+                from ..terms import Resolver
+                from ..srcmodel import own_nodes
+                cfg_ = CFG(fn.node)
+                res_ = Resolver(m, fn)
+                clear_nodes = {cfg_.node_of(c_) for c_ in own_nodes(fn.node) if isinstance(c_, ast.Call) and isinstance(c_.func, ast.Attribute) and c_.func.attr == "clear"
+                               and res_.term(c_.func.value) == ("field", memo)}
+                if clear_nodes:
+                    for fld in fields:
+                        for (wf, wnode, depth, kind) in eff.write_sites.get(tuple(fld), []):
+                            if wf is not fn:
+                                continue
+                            try:
+                                W = cfg_.node_of(wnode)
+                            except Exception:
+                                continue
+                            if W in clear_nodes:
+                                continue
+                            ok_path = cfg_.EXIT not in cfg_.reach(W, avoid=clear_nodes)
+                            rep.check(ok_path, "C15.R3", "%s:%s:every-path:%s" % (fn.name, memo, fld[1]), "after writing %s every path to a normal exit clears %s" % (fld[1], memo),
+                                      "%s writes %s and can return without clearing %s (the clear is conditional): a verdict cached before the registration - also a negative one for a then-unknown category - stays in effect" % (fn.name, fld[1], memo),
+                                      node=wnode, fn=fn)
             rep.check(clears, "C15.R3", key, "%s writes %s, which the fill path of %s reads, and clears the memo" % (fn.name, fields, memo),
                       "%s changes %s, which the cached entries of %s were computed from (fill path: %s), but does not clear the memo: answers cached before the registration stay in effect"
                       % (fn.name, fields, memo, ", ".join(f.name for f in fills)), fn=fn, facts={"memo_reads": reads_maps})
